@@ -50,8 +50,10 @@ HoldersOf(T) == {p \in P!PipeNames : T.p[p].ex /\ T.p[p].k \in P!Holders}
 Choices(T, e) ==
     LET H == HoldersOf(T)
         K == P!Live(T) + 1
-    IN {[det |-> FALSE, n |-> [p \in P!PipeNames |-> IF p \in H THEN f[p] ELSE 0], d |-> d, dead |-> SeqSet(e.dead)] :
-            f \in [H -> 0..K], d \in SUBSET {p \in H : T.p[p].k = "disblo"}}
+        DH == {p \in H : T.p[p].k = "disblo"}
+    IN {[det |-> FALSE, n |-> [p \in P!PipeNames |-> IF p \in H THEN f[p] ELSE 0], d |-> dk[1], k |-> dk[2],
+         dead |-> SeqSet(e.dead)] :
+            f \in [H -> 0..K], dk \in {x \in (SUBSET DH) \X (SUBSET DH) : x[1] \cap x[2] = {}}}
 
 TReset == /\ IsEv("Reset")
           /\ S' = P!Empty /\ void' = FALSE /\ drift' = drift
